@@ -616,6 +616,19 @@ func runC19(c *core.Ctx) {
 				src, _ := gen.GenGoFile(rng, gen.SrcOpts{Class: "G3"})
 				ext := []string{".txt", ".go.bak", ".proto", ".golang", ""}[rng.Intn(5)]
 				e = c19Entry{Name: name + ext, Kind: "nongo", Content: []byte(src)}
+				if len(entries) > 0 && rng.Intn(2) == 0 {
+					// a neighbour of an existing entry whose name is that entry's name plus a suffix an editor,
+					// a tool or a careless "atomic write" would use
+					prev := entries[rng.Intn(len(entries))]
+					if !prev.IsDir {
+						e.Name = prev.Name + []string{".tmp", "~", ".bak", ".orig", ".swp", ".new", ".1"}[rng.Intn(7)]
+						for _, o := range entries {
+							if o.Name == e.Name {
+								e.Name += "x"
+							}
+						}
+					}
+				}
 			case r < 19:
 				src, _ := gen.GenGoFile(rng, gen.SrcOpts{Class: "G1"})
 				e = c19Entry{Name: name + "_sub", Kind: "subdir", IsDir: true, SubFiles: map[string][]byte{"inner.pb.go": []byte(src), "note.txt": []byte("x")}}
@@ -623,6 +636,13 @@ func runC19(c *core.Ctx) {
 				e = c19Entry{Name: name + ".go", Kind: "dir-named-go", IsDir: true, SubFiles: map[string][]byte{"k.txt": []byte("@tag valid:\"required\"")}}
 			}
 			entries = append(entries, e)
+		}
+		if d%6 == 5 {
+			// a crowd of entries that are not Go files (notes, data, images): each is looked at and left alone
+			for k := 0; k < 9+rng.Intn(8); k++ {
+				entries = append(entries, c19Entry{Name: fmt.Sprintf("%c%02d_note.%s", 'a'+rune(rng.Intn(26)), 50+k, []string{"txt", "md", "json", "png"}[k%4]), Kind: "nongo", Content: []byte(fmt.Sprintf("note %d // @tag valid:\"required\"\n", k))})
+			}
+			res.Count("dirs_with_many_non_go_files")
 		}
 		sort.Slice(entries, func(i, j int) bool { return entries[i].Name < entries[j].Name })
 		h := sha256.New()
